@@ -9,6 +9,7 @@ mod c09;
 mod c11;
 mod c13;
 mod c14;
+mod c16;
 mod c17;
 mod enum_fol;
 mod dom;
@@ -55,7 +56,7 @@ fn main() {
         usage();
     }
     // panics inside explorers are caught per state; keep the default hook quiet
-    std::panic::set_hook(Box::new(|_| {}));
+    report::install_panic_hook();
     if let Some(path) = replay {
         let text = std::fs::read_to_string(&path).expect("cannot read replay file");
         let v: serde_json::Value = serde_json::from_str(&text).expect("replay file is not JSON");
@@ -84,6 +85,7 @@ fn main() {
         "C08" => c01::run(c01::Mode::C08, &run),
         "C07" => c07::run(c07::Mode::C07, &run),
         "C05" => c05::run(&run),
+        "C16" => c16::run(&run),
         "C14" => c14::run(c14::Mode::C14, &run),
         "C15" => c14::run(c14::Mode::C15, &run),
         "C13" => c13::run(&run),
